@@ -28,13 +28,18 @@ for label in sorted(os.listdir(os.path.join(HERE, "seeded"))):
     pid = label[:3]
     ev = os.path.join(HERE, "evidence", pid + ".json")
     bak = open(ev).read() if os.path.exists(ev) else None
-    subprocess.check_call(["git", "-C", "/repo", "diff", "--quiet"])
-    subprocess.check_call(["git", "-C", "/repo", "apply", os.path.join(d, "patch.diff")])
+    wt = "/tmp/seedmeta_%s" % label
+    subprocess.call(["rm", "-rf", wt])
+    os.makedirs(wt)
+    subprocess.check_call("git -C /repo archive HEAD | tar -x -C %s" % wt, shell=True)
+    subprocess.check_call(["git", "apply", "--directory=" + wt.lstrip("/"), "--unsafe-paths", os.path.join(d, "patch.diff")], cwd="/") if False else \
+        subprocess.check_call(["patch", "-p1", "-s", "-d", wt, "-i", os.path.join(d, "patch.diff")])
     t0 = time.time()
     try:
-        p = subprocess.run(["./check", pid, "--tier", "quick"], cwd=HERE, capture_output=True, text=True, timeout=1800)
+        p = subprocess.run(["./check", pid, "--tier", "quick"], cwd=HERE, capture_output=True, text=True, timeout=1800,
+                           env=dict(os.environ, VERIF_REPO=wt))
     finally:
-        subprocess.check_call(["git", "-C", "/repo", "checkout", "--", "."])
+        subprocess.call(["rm", "-rf", wt])
         if bak is not None:
             open(ev, "w").write(bak)
     sigs = sorted(set(re.findall(r"sig=(\S+)", p.stdout)))
@@ -48,7 +53,7 @@ for label in sorted(os.listdir(os.path.join(HERE, "seeded"))):
                      "dataset_tests_with_change": (re.findall(r"(\d+ failed, \d+ passed[^\n]*)", log) or ["?"])[0] + " (test_path1/test_path6 are empty data files and fail on the unmodified tree too; test_path12 is a random-sample flake that also occurs unmodified)",
                      "demo_unmodified": "PASS (exit 0)" if "PASS" in log.split("== fast tests")[0] else "?",
                      "demo_with_change": "FAIL (exit 1)" if "exit=1" in log.split("== demo with the change")[-1] else "?"},
-        "check_cmd": "git -C /repo apply seeded/%s/patch.diff && ./check %s --tier quick ; git -C /repo checkout -- ." % (label, pid),
+        "check_cmd": "git -C /repo apply seeded/%s/patch.diff && ./check %s --tier quick ; git -C /repo checkout -- .   (tools/seedmeta.py does the same on a scratch copy through VERIF_REPO)" % (label, pid),
         "check_exit": p.returncode, "check_wall_s": round(time.time() - t0, 1),
         "detected_signatures": [s for s in sigs if s not in known],
         "detected": p.returncode == 1,
